@@ -125,6 +125,65 @@ func checkC14(c *Ctx) {
 		}
 	}
 
+	// (2b) every successful SaveVersion / LoadVersion re-establishes lastSaved
+	c.rule("PASS-last-saved", "lastSaved follows every successful commit or load", 2)
+	if fLast := l.Field("", "MutableTree", "lastSaved"); fLast == nil {
+		c.anchorMissing("PASS-last-saved", "MutableTree.lastSaved")
+	} else {
+		for _, fn := range []*ssa.Function{sv, lv} {
+			q := mustState(fn, false, func(in ssa.Instruction) bool { return isStoreToField(in, fLast) }, nil)
+			var bad *ssa.Return
+			for _, r := range successReturns(fn) {
+				// LoadVersion on an empty store returns before anything is loaded
+				if !q(r) {
+					if fn == lv {
+						if v, ok := constInt(stripTrivial(retVal(r, 0))); ok && v == 0 {
+							continue
+						}
+					}
+					bad = r
+				}
+			}
+			pos := l.pos(fn.Pos())
+			if bad != nil {
+				pos = l.ipos(bad)
+			}
+			c.decide("PASS-last-saved", l.fname(fn)+" sets lastSaved on success", pos, bad == nil, "every success return passes the store", "a success return keeps an older lastSaved: Hash() is stale and Rollback() silently returns to an older version")
+		}
+	}
+	// (2c) the cached first version only advances past a version that was just deleted
+	c.rule("ORDER-first-version", "first version advances only after a successful deleteVersion", 1)
+	if dvt, dv, rfv := l.Func("", "*nodeDB.deleteVersionsTo"), l.Func("", "*nodeDB.deleteVersion"), l.Func("", "*nodeDB.resetFirstVersion"); dvt == nil || dv == nil || rfv == nil {
+		c.anchorMissing("ORDER-first-version", "deleteVersionsTo / deleteVersion / resetFirstVersion")
+	} else {
+		var dvCall *ssa.Call
+		for _, in := range callsIn(dvt, predStatic(dv)) {
+			if cl, ok := in.(*ssa.Call); ok {
+				dvCall = cl
+			}
+		}
+		n := 0
+		for _, in := range callsIn(dvt, predStatic(rfv)) {
+			if dvCall == nil || !dvCall.Block().Dominates(in.Block()) {
+				continue
+			}
+			n++
+			// argument is (the version handed to deleteVersion) + 1
+			arg := stripTrivial(callCommon(in).Args[1])
+			okArg := false
+			if bo, isB := arg.(*ssa.BinOp); isB && bo.Op == token.ADD {
+				if one, isC := constInt(bo.Y); isC && one == 1 && sameValue(bo.X, dvCall.Call.Args[1]) {
+					okArg = true
+				}
+			}
+			c.decide("ORDER-first-version", "deleteVersionsTo advances firstVersion to deleted+1 after success", l.ipos(in), okArg && okEdgeDominates(dvCall, in),
+				"resetFirstVersion(version+1) right after deleteVersion(version) returned nil", "the cached first version is set to something other than (just deleted version)+1, or without a successful deletion: the advertised range no longer matches what is stored")
+		}
+		if n == 0 {
+			c.bad("ORDER-first-version", "deleteVersionsTo advances firstVersion per deleted version", l.pos(dvt.Pos()), "no resetFirstVersion follows deleteVersion inside the pruning loop: the cached range is not advanced version by version")
+		}
+	}
+
 	// (3)
 	var wvCall ssa.Value
 	for _, in := range callsIn(sv, predStatic(wv)) {
